@@ -4,7 +4,7 @@ from hypothesis import strategies as st
 
 from .. import gen
 from ..core import SubCheck, Violation
-from ..oracle import (lib, np_rows, np_flat, lazy_ra, mk_rows, expect_ragged, expect_refused, expect_unchanged, expect_array,
+from ..oracle import (lib, lib_uninitialised, np_rows, np_flat, lazy_ra, mk_rows, expect_ragged, expect_refused, expect_unchanged, expect_array,
                       jsonable, arrays_equal)
 
 RULE = ("Cases per function: concatenate along rows (1-4 operands, zero-row operands included) and along columns (equal row "
@@ -89,12 +89,13 @@ def body_like(case, ctx):
     dt = case["dtype"]
     labels(ctx, a["lens"], "f:" + case["f"], "dtype-given" if dt else "dtype-default")
     ctx.nt(0 in a["lens"] or len(a["lens"]) == 0)
-    got = lib(lambda: f(ra, dtype=dt) if dt else f(ra))
+    glib = lib_uninitialised if case["f"] == "empty_like" else lib
+    got = glib(lambda: f(ra, dtype=dt) if dt else f(ra))
     from npstructures import RaggedArray
     if not got.ok or not isinstance(got.value, RaggedArray):
         raise Violation("like:result", got=got.brief(), f=case["f"])
     res = got.value
-    r = lib(lambda: ([int(x) for x in res.lengths], len(res), str(res.dtype), [np.asarray(x) for x in res]))
+    r = glib(lambda: ([int(x) for x in res.lengths], len(res), str(res.dtype), [np.asarray(x) for x in res]))
     if not r.ok:
         raise Violation("like:unreadable", got=r.brief())
     lens, n, rdt, rrows = r.value
